@@ -141,6 +141,7 @@ func pesOptionalSpec(c *layout.Checker) []*layout.Source {
 type pesDataInst struct {
 	bounded, opt       bool
 	stuffing, trailing int
+	short              bool // PES_packet_length announces more bytes than the unit holds
 }
 
 var pesDataInsts sync.Map // *layout.Source -> pesDataInst
@@ -186,10 +187,36 @@ func pesDataSpec(c *layout.Checker) []*layout.Source {
 						b.Opaque(8*trailing, "$trailing")
 					}
 					src := b.Source()
-					pesDataInsts.Store(src, pesDataInst{bounded, opt, stuffing, trailing})
+					pesDataInsts.Store(src, pesDataInst{bounded, opt, stuffing, trailing, false})
 					out = append(out, src)
 				}
 			}
+		}
+	}
+	// PES_packet_length longer than the bytes available (a unit cut short): "exactly that many bytes when non-zero" cannot
+	// be honoured, the parser must report an error, never a shortened payload
+	for _, sid := range []int64{0xbf, 0xc0, 0xe0} {
+		for _, missing := range []int64{1, 200} {
+			opt := sid != 0xbf
+			b := c.NewSpec(fmt.Sprintf("truncated PES packet stream_id=0x%02x missing=%d", sid, missing))
+			b.Const(24, 1).Field(8, "$d/Header.StreamID").Fix("$d/Header.StreamID", sid)
+			hdr := int64(0)
+			if opt {
+				hdr = 3
+			}
+			b.Const(16, uint64(hdr+10+missing)) // PES_packet_length announces `missing` bytes more than follow
+			if opt {
+				h := "$d/Header/OptionalHeader"
+				b.Const(2, 2).Field(2, h+".ScramblingControl").Flag(h + ".Priority").Flag(h + ".DataAlignmentIndicator").Flag(h + ".IsCopyrighted").Flag(h + ".IsOriginal")
+				b.Field(2, h+".PTSDTSIndicator").Fix(h+".PTSDTSIndicator", 0)
+				b.FlagIs(h+".HasESCR", false).FlagIs(h+".HasESRate", false).FlagIs(h+".HasDSMTrickMode", false)
+				b.FlagIs(h+".HasAdditionalCopyInfo", false).FlagIs(h+".HasCRC", false).FlagIs(h+".HasExtension", false)
+				b.Const(8, 0)
+			}
+			b.BlobN("$d.Data", 10)
+			src := b.Source()
+			pesDataInsts.Store(src, pesDataInst{true, opt, 0, 0, true})
+			out = append(out, src)
 		}
 	}
 	return out
@@ -201,7 +228,11 @@ func c12SpecPairs(c *Ctx) []layout.RTPair {
 		{Name: "spec/pts", Parser: c.fn("parsePTSOrDTS"), Sources: ptsSpec, It: "$i", Root: "$cr", RootPtr: true, MinSources: 1,
 			NotWritten: map[string]string{"Extension": noExt}},
 		{Name: "spec/escr", Parser: c.fn("parseESCR"), Sources: escrSpec, It: "$i", Root: "$cr", RootPtr: true, MinSources: 1},
-		{Name: "spec/pes-data", Parser: c.fn("parsePESData"), Sources: pesDataSpec, It: "$i", Root: "$d", RootPtr: true, MinSources: 20, ExactLen: true,
+		{Name: "spec/pes-data", Parser: c.fn("parsePESData"), Sources: pesDataSpec, It: "$i", Root: "$d", RootPtr: true, MinSources: 26, ExactLen: true,
+			RejectSource: func(src *layout.Source) bool {
+				in, _ := pesDataInsts.Load(src)
+				return in.(pesDataInst).short
+			},
 			// what follows a bounded packet in the unit is not consumed
 			Consumed: func(src *layout.Source) lin.Form {
 				in, _ := pesDataInsts.Load(src)
